@@ -147,6 +147,36 @@ func (cliSim) Gen(prop, tier string, r *rand.Rand) interface{} {
 	case "C20":
 		c.Mode = "generate"
 		genGenerate(r, c, l)
+	case "C06":
+		c.Mode = "c06cli"
+		switch r.IntN(3) {
+		case 0:
+			genGenerate(r, c, l)
+			c.EnvFault = ""
+			c.Files = nil
+		case 1:
+			genCopyWorld(r, c, l, vmode)
+			c.EnvFault = ""
+			for i := range c.Files {
+				c.Files[i].Layout = l
+				if c.Files[i].Base == "dst" {
+					c.Files[i].Absent = true
+				} else if chance(r, 0.4) {
+					c.Files[i].Fills = nil // nothing to copy
+				}
+			}
+			c.Cmd.Create = l
+		case 2:
+			genSumWorld(r, c, l, true)
+			c.Deviate = nil
+			for i := range c.Files {
+				if c.Files[i].Base == "dst" {
+					c.Files[i].Absent = true
+				} else if chance(r, 0.3) {
+					c.Files[i].Fills = nil
+				}
+			}
+		}
 	}
 	if chance(r, 0.15) && (prop == "C08" || prop == "C10" || prop == "C11") {
 		c.Tick = &TickFault{G: pick(r, "A0", "A0.1", "A0.2", "A0.1.1"), Y: uint64(between(r, 1, 60)), D: between(r, 1, 3)}
@@ -478,6 +508,8 @@ func (cliSim) Run(e *Env, ci interface{}) {
 		checkViewRaw(e, r, c)
 	case "generate":
 		checkGenerate(e, r, c)
+	case "c06cli":
+		checkC06Cli(e, r, c)
 	default:
 		e.Skip("invalid-case")
 	}
